@@ -67,6 +67,8 @@ class CharEval:
             return self._num(p["lit"]["v"] if p["lit"].get("lk") == "char" else int(p["lit"]["v"])) == self._num(v)
         if k == "Range":
             lo, hi = p.get("lo"), p.get("hi")
+            if lo is None and hi is None:
+                raise Unknown("range pattern without endpoints in the facts")
             lo_v = self._num(self.val(lo, {})) if lo else 0
             hi_v = self._num(self.val(hi, {})) if hi else 0x10FFFF
             incl = str(p.get("end", "Included")).startswith("Incl")
